@@ -215,7 +215,22 @@ def equality_table(lib, f, fields, disc=None, disc_values=(None,), other=None):
     import itertools
     from .gnf import eval_formula
     a, b = f.params[0][0], f.params[1][0]
-    sx = SymExec(fold_global=lib.global_value)
+
+    def getter(e, canon):
+        """x.accessor() whose body is `return <field>;` reads that field of x"""
+        if e.k == 'call' and e.a[1] is not None and not e.a[2]:
+            fs = lib.fns(e.a[0])
+            body = fs[0].body if fs else []
+            if len(body) == 1 and body[0].k == 'return' and body[0].a[0] is not None:
+                r = body[0].a[0]
+                while r.k == 'cast':
+                    r = r.a[2]
+                if r.k == 'field' and r.a[0].k == 'this':
+                    p = canon.path(e.a[1])
+                    if p is not None:
+                        return canon.leaf(p + '.' + r.a[1])
+        return None
+    sx = SymExec(fold_global=lib.global_value, resolve=getter)
     sx.bool_return = True
     sx.cmp_calls = {'ace_time::operator==': '==', 'ace_time::operator!=': '!='}
     summ = sx.run(f.name, f.body, {})
